@@ -84,6 +84,10 @@ impl SslBufferItem {
         ensures match r { Ok(c) => s.ssl_buffer@ == Some(c), Err(_) => s.ssl_buffer@ is None }
     { unimplemented!() }
     #[verifier::external_body]
+    pub fn may_load(&self, s: &Storage) -> (r: Result<Option<SingleSideLiquidityProvisionBuffer>, StdError>)
+        ensures match r { Ok(c) => s.ssl_buffer@ == c, Err(_) => true }
+    { unimplemented!() }
+    #[verifier::external_body]
     pub fn save(&self, s: &mut Storage, v: &SingleSideLiquidityProvisionBuffer) -> (r: Result<(), StdError>)
         ensures r is Ok, *final(s) == (Storage { ssl_buffer: Ghost(Some(*v)), ..*old(s) })
     { unimplemented!() }
